@@ -52,3 +52,4 @@ u32 envf_first_read_seq(u8 *h) { return look(h)->first_read_seq; }
 u32 envf_closed(u8 *h) { return look(h)->closed; }
 void envf_seek(u8 *h, u64 pos) { fseek((FILE *)h, (long)pos, SEEK_SET); }
 u64 envf_tell(u8 *h) { return (u64)ftell((FILE *)h); }
+void envf_release(u8 *h) { for (int i = 0; i < ntab; i++) if ((u8 *)tab[i]->fp == h) { struct nfile *f = tab[i]; fclose(f->fp); free(f->data); free(f); tab[i] = tab[--ntab]; return; } }
